@@ -23,7 +23,8 @@ impl Property for C13 {
         }
     }
     fn rule(&self) -> &'static str {
-        "targets at depth 0-3 whose names have zero to three dots, spaces and non-ASCII letters, given \
+        "targets at depth 0-3 (in a third of the deep cases the last directories do not exist yet and are \
+         created by the rule) whose names have zero to three dots, spaces and non-ASCII letters, given \
          with redundant separators and .. detours; 1-4 candidate scripts placed at random positions of \
          the reference candidate list (name.do, default.<ext>.do longest extension first, default.do, in \
          the target's directory then each ancestor up to the project root); history: build, then add a \
@@ -54,15 +55,26 @@ impl Property for C13 {
             };
             dirs.push(dir.clone());
         }
+        // in a third of the deep scenarios the last directories of the chain do
+        // not exist yet: the rule (in an existing ancestor) creates them, and a
+        // later step may put a higher-priority script into the new directory
+        let n_existing = if depth > 0 && rng.chance(1, 3) {
+            rng.below(depth as u64) as usize
+        } else {
+            depth
+        };
+        let all_dirs = dirs.clone();
+        dirs.truncate(n_existing);
         let name = rng.pick(&NAMES).to_string();
         let target = if dir.is_empty() { name.clone() } else { format!("{}/{}", dir, name) };
         let cands = candidates(&target);
+        let dir_exists = |d: &str| d.is_empty() || all_dirs[..n_existing].iter().any(|x| x == d);
         let mut files = vec![("s0".to_string(), source_content("s0", 0))];
         files.push(("zz".into(), b"z\n".to_vec()));
         // choose 1-4 candidate positions that exist initially
-        let mut idx: Vec<usize> = (0..cands.len()).collect();
+        let mut idx: Vec<usize> = (0..cands.len()).filter(|i| dir_exists(&cands[*i].do_dir)).collect();
         rng.shuffle(&mut idx);
-        let n_exist = rng.range(1, 4.min(cands.len() as u64)) as usize;
+        let n_exist = rng.range(1, 4.min(idx.len() as u64)) as usize;
         let mut exist: Vec<usize> = idx[..n_exist].to_vec();
         exist.sort();
         let mk_rule = |rng: &mut Rng, c: &Candidate, ver: u32| -> Rule {
@@ -71,6 +83,9 @@ impl Property for C13 {
             let mut stmts = vec![Stmt::IfChange(vec![s0])];
             if rng.chance(1, 3) {
                 stmts.insert(0, Stmt::Out { mode: OutMode::File, pad: 0 });
+            }
+            if n_existing < depth {
+                stmts.insert(0, Stmt::MkDirs);
             }
             Rule { version: ver, stmts }
         };
@@ -87,8 +102,8 @@ impl Property for C13 {
             history: Vec::new(),
         };
         // spelling of the target on the command line
-        let cwd = if depth > 0 && rng.chance(1, 2) {
-            sc.dirs[rng.below(depth as u64) as usize].clone()
+        let cwd = if n_existing > 0 && rng.chance(1, 2) {
+            sc.dirs[rng.below(n_existing as u64) as usize].clone()
         } else {
             String::new()
         };
